@@ -26,13 +26,28 @@ class Candidates(Extension):
         EVENTS.append(('cands', [_row_summary(m) for m in message.messages]))
 
 
+MIN_PEAK_DISTANCE = 20000      # the default of -md; checks that use all_heights do not deviate from it
+
+
 class Seeds(Extension):
     messageType = InitialAlignmentMessage
 
     def handle(self, message):
         d = message.data
+        # heights of ALL primary peaks of this correlation (recomputed from the correlation array the message carries), so that a
+        # check can tell whether the peaks COMA kept are the highest ones
+        allh = None
+        try:
+            import numpy as np
+            from scipy.signal import find_peaks
+            corr = np.asarray(d.correlation)
+            if corr.size:
+                _, props = find_peaks(corr, height=0.75 * np.max(corr), distance=MIN_PEAK_DISTANCE / d.resolution)
+                allh = sorted((float(h) for h in props['peak_heights']), reverse=True)[:12]
+        except Exception:
+            allh = None
         EVENTS.append(('seeds', int(d.query.moleculeId), int(d.query.shift), int(d.reference.moleculeId), bool(d.reverseStrand),
-                       [(float(p.position), float(p.score), float(p.height)) for p in d.peaks]))
+                       [(float(p.position), float(p.score), float(p.height)) for p in d.peaks], allh))
 
 
 class Rows(Extension):
